@@ -6,5 +6,9 @@ import "verif/harness"
 func C10Workloads() []harness.Workload {
 	return []harness.Workload{
 		{Name: "session-runner", Quick: 300, Thorough: 30000, Run: RunSessionHonest},
+		// the adversarial clause of C10 (an opening that does not match its commitment is
+		// rejected and blamed by the recipient; honest parties that complete agree): every
+		// single-fault cell of the session-setup scenario, the same cells C04 runs
+		c04Workload("session", 100000),
 	}
 }
